@@ -35,6 +35,7 @@ type writeCase struct {
 	writable   *fieldmaskpb.FieldMask // resource level
 	more       *fieldmaskpb.FieldMask // per write extra writable
 	allWrit    bool
+	union      bool // update is the union of several mask options
 	reset      *fieldmaskpb.FieldMask
 	resetKind  string
 }
@@ -59,7 +60,7 @@ func (c writeCase) effectiveWritable() *fieldmaskpb.FieldMask {
 }
 
 func (c writeCase) spec() lib.UpdateSpec {
-	return lib.UpdateSpec{UpdateMask: c.update, Writable: c.effectiveWritable(), ResetMask: c.reset, PathByPath: true}
+	return lib.UpdateSpec{UpdateMask: c.update, Writable: c.effectiveWritable(), ResetMask: c.reset, PathByPath: !c.union}
 }
 
 func drawValidMaskNoNilEmpty(t *rapid.T, label string, md protoreflect.MessageDescriptor, bias ...proto.Message) (*fieldmaskpb.FieldMask, string) {
@@ -554,7 +555,7 @@ func TestOptionMasksAreNotKept(t *testing.T) {
 		}
 		cur := first.stored
 		n := rapid.IntRange(2, 5).Draw(t, "writes")
-		multi := false
+		multi, moreUpdate := false, false
 		for i := 0; i < n; i++ {
 			c := writeCase{proto: first.proto, stored: cur, writable: first.writable, updateKind: "pooled", resetKind: "nil"}
 			c.written = lib.GenMessage(t, fmt.Sprintf("w%d", i), first.proto, lib.GenOpts{FieldProb: -1})
@@ -578,6 +579,14 @@ func TestOptionMasksAreNotKept(t *testing.T) {
 				j := rapid.IntRange(0, len(pool)-1).Draw(t, "update")
 				opts = append(opts, resource.WithUpdateMask(pool[j]))
 				c.update = &fieldmaskpb.FieldMask{Paths: append([]string(nil), snap[j].Paths...)}
+				if rapid.IntRange(0, 2).Draw(t, "withMoreUpdateMask") == 0 {
+					// the way a model adds the fields it derives: the caller's mask object must not grow
+					k := rapid.IntRange(0, len(pool)-1).Draw(t, "moreUpdate")
+					opts = append(opts, resource.WithMoreUpdateMask(pool[k]))
+					c.update.Paths = append(c.update.Paths, snap[k].Paths...)
+					c.union = true
+					moreUpdate = true
+				}
 			}
 			var ret, after proto.Message
 			var err error
@@ -606,7 +615,10 @@ func TestOptionMasksAreNotKept(t *testing.T) {
 			}
 		}
 		nt := ""
-		if multi {
+		if moreUpdate {
+			lib.Ev.Class("pooled:a pooled mask also passed as WithMoreUpdateMask")
+		}
+		if multi || moreUpdate {
 			nt = fmt.Sprintf("pooled:%v:%d:%s", first.String(), n, txt(cur))
 		}
 		lib.Ev.Case(nt, func() any { return fmt.Sprintf("%d writes passing the caller's own mask objects again and again, first: %s", n, first.String()) })
